@@ -6,6 +6,7 @@ import (
 	"go/types"
 	"os"
 	"path/filepath"
+	"regexp"
 	"sort"
 	"strings"
 	"sync"
@@ -18,6 +19,7 @@ import (
 type Config struct {
 	RepoDir         string
 	HarnessDir      string
+	HarnessFiles    *regexp.Regexp
 	WorkDir         string
 	Tags            string
 	Solver          string
@@ -81,6 +83,11 @@ func (e *Engine) buildOverlay() error {
 			return err
 		}
 		rel, _ := filepath.Rel(e.cfg.HarnessDir, p)
+		// -harness-files: only the harness files a check needs enter the build, so that a change
+		// of an unexported signature used by ONE property's harness cannot break the others
+		if e.cfg.HarnessFiles != nil && !e.cfg.HarnessFiles.MatchString(rel) {
+			return nil
+		}
 		rel = strings.TrimPrefix(rel, "_root/")
 		if strings.HasPrefix(filepath.Base(rel), "_") {
 			return nil
